@@ -442,7 +442,7 @@ def _make_types_index(nodes_):
                 included.add(node_.name)
                 for included_name, included_type in _make_types_index(node_.members):
                     yield included_name, included_type
-        else:
+        elif not isinstance(node_, Constant):
             yield node_.name, node_
 
 
@@ -523,7 +523,7 @@ def to_int(x, constants):
         return int(x)
     except ValueError:
         val = constants.get(x)
-        return val if val is not None else calc.eval(x, constants)
+        return val if isinstance(val, int) else calc.eval(x, constants)
 
 
 def evaluate_stiffness_kinds(nodes):
